@@ -42,55 +42,36 @@ Theorem C13_lazy_fetch_only_on_demand :
 Proof. exact lazy_fetch_only_on_demand. Qed.
 Print Assumptions C13_lazy_fetch_only_on_demand.
 
-(* ... which, in a network without failures, means: some DRIVING subscriber is waiting, and no subscriber
-   is waiting for a message number <= the lowest buffered one. *)
-Theorem C13_lazy_fetch_demand_explicit :
+(* The property as worded, for every mailbox of every network without failures (J: C05's invariants, no
+   killer, no futures), every schedule: at every advance of a lazy source some DRIVING subscriber waits for
+   a message that has not been produced (its number is >= _n_sent), and no subscriber waits for a message
+   that is already in the mailbox.  (Mailbox._can_fetch as repaired by /repo ede7cda.) *)
+Theorem C13_lazy_fetch_only_on_demand_full :
   forall (N : nat) (n0 : net) (sched : list nat) (n : net) (w : nat) (n' : net),
     all_boxes (J N) (n_boxes n0) -> nrun n0 sched = Some n -> nstep n w = Some n' ->
     forall d cfg st st',
       nth_error (n_boxes n) d = Some (cfg, st) -> nth_error (n_boxes n') d = Some (cfg, st') ->
       c_lazy cfg = true -> length (src st') < length (src st) ->
-      (exists i r x, nth_error (rds st) i = Some r /\ r_drive r = true /\ r_waiting r = Some x) /\
-      (forall lo m t, box st = (lo, m) :: t ->
-         forall i r x, nth_error (rds st) i = Some r -> r_waiting r = Some x -> lo < x).
-Proof. exact lazy_fetch_demand_explicit. Qed.
-Print Assumptions C13_lazy_fetch_demand_explicit.
+      (exists i r x, nth_error (rds st) i = Some r /\ r_drive r = true /\ r_waiting r = Some x /\ n_sent st <= x) /\
+      (forall i r x, nth_error (rds st) i = Some r -> r_waiting r = Some x ->
+         has_msg (box st) x = false /\ n_sent st <= x).
+Proof. exact lazy_fetch_only_on_demand_full. Qed.
+Print Assumptions C13_lazy_fetch_only_on_demand_full.
 
-(* For a mailbox with ONE subscriber this is the property as worded: the (driving) subscriber waits for the
-   next message, which has not been produced, and nobody waits for a message that is already there. *)
-Theorem C13_lazy_fetch_single_subscriber :
-  forall (N : nat) (n0 : net) (sched : list nat) (n : net) (w : nat) (n' : net),
-    all_boxes (J N) (n_boxes n0) -> nrun n0 sched = Some n -> nstep n w = Some n' ->
-    forall d cfg st st' r,
-      nth_error (n_boxes n) d = Some (cfg, st) -> nth_error (n_boxes n') d = Some (cfg, st') ->
-      c_lazy cfg = true -> length (src st') < length (src st) -> rds st = [r] ->
-      r_drive r = true /\ r_waiting r = Some (n_sent st) /\ box st = [] /\
-      forall x, r_waiting r = Some x -> has_msg (box st) x = false.
-Proof. exact lazy_fetch_single_subscriber. Qed.
-Print Assumptions C13_lazy_fetch_single_subscriber.
-
-(* The property as worded, for every mailbox: at every advance of a lazy source nobody waits for a message
-   that is already in the mailbox. *)
-Definition C13_full_lazy_fetch_only_on_demand : Prop :=
-  forall (c : comps) (o : popts) (p N : nat) (sched : list nat) (w : nat) (n n' : net)
-         (d : nat) (cfg : config) (st st' : state),
-    nrun (net_of (wire c o p) N) sched = Some n -> nstep n w = Some n' ->
-    nth_error (n_boxes n) d = Some (cfg, st) -> nth_error (n_boxes n') d = Some (cfg, st') ->
-    c_lazy cfg = true -> length (src st') < length (src st) ->
-    forall i r x, nth_error (rds st) i = Some r -> r_waiting r = Some x -> has_msg (box st) x = false.
-
-(* It is false for the code as it is (finding F1): source -> plugin with a saver on the source's output,
-   lazy; the saver lags, the plugin has been notified of chunk 1 but has not run yet, and the source is
-   advanced again.  The witness schedule is replayed on the real code by every run of the check. *)
-Theorem C13_lazy_fetch_strong_refuted :
-  exists (c : comps) (o : popts) (p N : nat) (sched : list nat) (w : nat) (n n' : net)
-         (cfg : config) (st st' : state),
-    nrun (net_of (wire c o p) N) sched = Some n /\ nstep n w = Some n' /\
-    nth_error (n_boxes n) 0 = Some (cfg, st) /\ nth_error (n_boxes n') 0 = Some (cfg, st') /\
-    c_lazy cfg = true /\ length (src st') < length (src st) /\
-    exists i r x, nth_error (rds st) i = Some r /\ r_waiting r = Some x /\ has_msg (box st) x = true.
-Proof. exact lazy_fetch_strong_refuted. Qed.
-Print Assumptions C13_lazy_fetch_strong_refuted.
+(* Documentation of finding F1 (fixed by ede7cda): the gate as it was before (can_fetch_pinned, comparing
+   with the LOWEST buffered number) is true in a reachable state in which a driving subscriber waits for a
+   message that is already in the mailbox — source -> plugin with a saver on the source's output, lazy; the
+   saver lags, the plugin has been notified of chunk 1 but has not run yet.  The schedule is replayed on
+   the real code by every run of the check: with the old gate the source is advanced there. *)
+Theorem C13_lazy_gate_pinned_refuted :
+  exists (c : comps) (o : popts) (p N : nat) (sched : list nat) (n : net) (cfg : config) (st : state),
+    nrun (net_of (wire c o p) N) sched = Some n /\ nth_error (n_boxes n) 0 = Some (cfg, st) /\
+    c_lazy cfg = true /\ at_gate (s_pc st) = true /\
+    can_fetch_pinned st = true /\ can_fetch st = false /\
+    exists i r x, nth_error (rds st) i = Some r /\ r_drive r = true /\ r_waiting r = Some x /\
+                  has_msg (box st) x = true.
+Proof. exact lazy_gate_pinned_refuted. Qed.
+Print Assumptions C13_lazy_gate_pinned_refuted.
 
 (* The path bound, for every well-formed network (any DAG: chains, diamonds, fan-outs, joins, any savers /
    discarders), eager or lazy, every schedule, every run length N: a source connected to the consumer by a
